@@ -12,6 +12,7 @@
 import concurrent.futures
 import json
 import os
+import random
 
 from common import (Infra, go_must_pass, go_test, harness_overlay, read_ndjson, run_tlc, write_ndjson)
 
@@ -19,8 +20,10 @@ PKG = "internal/tools/regexAnalysis"
 
 # (name, cfg, kind)   kind: "mc" exhaustive builder graph, "sim" random generator
 QUICK = [("wide1", "RegexWide1.cfg", "mc"), ("core", "RegexCoreQ.cfg", "mc"), ("fold", "RegexFold.cfg", "mc")]
-THOROUGH = [("wide2", "RegexWide2.cfg", "mc"), ("core", "RegexCoreQ.cfg", "mc"), ("coreT", "RegexCoreT.cfg", "mc"),
-            ("deep", "RegexDeep.cfg", "mc"), ("fold", "RegexFold.cfg", "mc")]
+# the thorough tier starts with the quick sets (a row keeps the name of the first set it appears in), so that the
+# smallest failing expression - and with it the key of a violation - is the same in both tiers whenever possible
+THOROUGH = QUICK + [("wide2", "RegexWide2.cfg", "mc"), ("coreT", "RegexCoreT.cfg", "mc"), ("deep", "RegexDeep.cfg", "mc")]
+COMMON = {n for n, _, _ in QUICK}
 TRACE_CFG = {"ab/5": "RegexTrace.cfg", "Aa/4": "RegexTraceFold.cfg"}
 
 
@@ -41,16 +44,16 @@ def _group(row):
 def generate(ctx):
     quick = ctx.quick()
     jobs = [(n, c, k, None) for (n, c, k) in (QUICK if quick else THOROUGH)]
-    nsim, num = (4, 250) if quick else (12, 1500)
+    nsim, num = (4, 150) if quick else (10, 1200)
     for i in range(nsim):
-        jobs.append(("sim%d" % i, "RegexSim.cfg", "sim", int(ctx.seed) * 1000 + i + 1))
+        jobs.append(("sim%d" % i, "RegexSimAll.cfg" if i % 4 == 3 else "RegexSim.cfg", "sim", int(ctx.seed) * 1000 + i + 1))
     mc_workers = 4 if quick else 6
 
     def one(job):
         name, cfg, kind, seed = job
         if kind == "mc":
-            return job, run_tlc(_Sub(ctx, name), "Regex", cfg, workers=mc_workers, timeout=900)
-        return job, run_tlc(_Sub(ctx, name), "Regex", cfg, workers=1, timeout=900,
+            return job, run_tlc(_Sub(ctx, name), "Regex", cfg, workers=mc_workers, timeout=900, heap="3g")
+        return job, run_tlc(_Sub(ctx, name), "Regex", cfg, workers=1, timeout=900, heap="2g",
                             extra=["-simulate", "num=%d" % num, "-depth", "8", "-seed", str(seed)])
 
     rows, seen, stats = [], set(), {}
@@ -58,7 +61,7 @@ def generate(ctx):
         for job, res in ex.map(one, jobs):
             name, cfg, kind, seed = job
             if res.error or not res.finished or res.invariant_violated:
-                raise Infra("generator %s (%s) failed:\n%s" % (name, cfg, _tail(res.out)))
+                raise Infra("generator %s (%s) failed (rc=%s):\n%s" % (name, cfg, res.rc, _tail(res.out)))
             got = [p for p in res.prints if "ast" in p]
             if any("unparsed" in p for p in res.prints):
                 raise Infra("generator %s printed an unparsable line" % name)
@@ -89,7 +92,7 @@ def validate(ctx, group, rows):
     d = ctx.sub("trace_" + group.replace("/", "_"))
     path = os.path.join(d, "regex_trace.ndjson")
     write_ndjson(path, rows)
-    res = run_tlc(_Sub(ctx, "v" + group.replace("/", "_")), "RegexTrace", TRACE_CFG[group], files=[path], workers=8 if len(rows) > 2000 else 2, timeout=1500)
+    res = run_tlc(_Sub(ctx, "v" + group.replace("/", "_")), "RegexTrace", TRACE_CFG[group], files=[path], workers=8 if len(rows) > 2000 else 2, timeout=1500, heap="8g")
     if res.error or not res.finished or res.invariant_violated:
         raise Infra("trace validation failed to run (%s):\n%s" % (group, _tail(res.out)))
     if res.distinct != len(rows) + 1:
@@ -153,20 +156,32 @@ def run(ctx):
     if len({p["id"] for p in oks}) != judged:
         raise Infra("TLC judged %d of %d rows" % (len({p['id'] for p in oks}), judged))
 
-    counts = {}
-    fails.sort(key=lambda f: (f["what"], len(f["re"]), f["re"]))      # shortest expression becomes the replay
+    selftest = _selftest(ctx, groups.get("ab/5", []), oks, {f["id"] for f in fails})
+
+    # key = failing predicate + regime.  The regime is either the one TLC computed (":infeasible-path") or the shape of
+    # the smallest failing expression (letters and classes written x, assertions ^), so that a different defect of the
+    # same predicate gets a different key.
+    def rank(f):
+        p = by_id[f["id"]][0]
+        return (f["what"], p["src"] not in COMMON, p["src"] == "sim", p["size"], len(f["re"]), f["re"])
+    fails.sort(key=rank)
+    keyof, counts = {}, {}
     for f in fails:
-        key = "C18." + f["what"]
-        counts[key] = counts.get(key, 0) + 1
+        if f["what"] not in keyof:
+            keyof[f["what"]] = "C18." + f["what"] + ("" if ":" in f["what"] else ":" + _skel(by_id[f["id"]][0]["ast"]))
+        counts[keyof[f["what"]]] = counts.get(keyof[f["what"]], 0) + 1
     for f in fails:
-        key = "C18." + f["what"]
+        key = keyof[f["what"]]
+        if any(v["key"] == key for v in ctx.violations):
+            continue
         p, a = by_id[f["id"]]
         what = "%s: `%s` computed min=%s max=%s suffix=%r; specification: TrueMin=%s TrueMax=%s, witness/expected %s (%d expressions fail this way)" % (
             f["what"], f["re"], _inf(f["min"]), _inf(f["max"]), "".join(f["suffix"]), _inf(p["tmin"]), _inf(p["tmax"]),
             f["extra"], counts[key])
         ctx.violation(key, what, {"re": f["re"], "ast": p["ast"], "lang_upto_L": p["lang"], "L": p["L"], "sigma": p["sigma"],
                                   "computed": {"min": f["min"], "max": f["max"], "suffix": "".join(f["suffix"])},
-                                  "predicate": f["what"], "detail": f["extra"], "source": p["src"]})
+                                  "predicate": f["what"], "detail": f["extra"], "source": p["src"],
+                                  "others": [g["re"] for g in fails if g["what"] == f["what"]][1:6]})
     for v in ctx.violations:
         v["count"] = counts.get(v["key"], v["count"])
 
@@ -190,6 +205,7 @@ def run(ctx):
         "witness_nonempty_suffix": sum(1 for p in oks if p["sufw"]),
         "with_assertions": sum(1 for p in rows if p["assert"]),
         "predicate_failures": counts,
+        "selftest_corrupted_rows_rejected": selftest,
         "analysis_watchdog_expired": slow,
         "rule": "every distinct expression (by concrete syntax) of the TLC state graphs of Regex.tla for the tier's parameter "
                 "sets plus TLC -simulate random expressions; each is matched by the engine against all words of length <= L, "
@@ -206,8 +222,77 @@ def run(ctx):
         "bytes >= 0x80, multi-line / dot-all flags, named classes and look-around are not generated"]
 
 
+def _selftest(ctx, answers, oks, failing):
+    """The trace checker must reject recorded answers that are wrong: corrupt one field of rows TLC accepted
+    (bound off by one, a suffix letter no matched word ends with, engine count) and require the matching line."""
+    rnd = random.Random(int(ctx.seed))
+    ok = {p["id"]: p for p in oks}
+    good = [a for a in answers if a["id"] not in failing and ok.get(a["id"], {}).get("n", 0) > 1]
+    rnd.shuffle(good)
+    bad, expect = [], {}
+
+    def add(a, what, **chg):
+        b = dict(a)
+        b.update(chg)
+        b["id"] = len(bad) + 1
+        bad.append(b)
+        expect[b["id"]] = what
+
+    for a in good:
+        o = ok[a["id"]]
+        n = len(bad)
+        if o["minw"] and n % 5 == 0:
+            add(a, "MinTooLarge", min=a["min"] + 1)
+        elif o["maxw"] and a["max"] >= 1 and n % 5 == 1:
+            add(a, "MaxTooSmall", max=a["max"] - 1)
+        elif o["minw"] and a["min"] >= 1 and n % 5 == 2:
+            add(a, "MinNotAttained", min=a["min"] - 1)
+        elif n % 5 == 3:
+            add(a, "SuffixNotSuffix", suffix=a["suffix"] + ["a", "b"])     # no word ends with ...ab AND with the old suffix
+        elif n % 5 == 4:
+            add(a, "conf", engn=a["engn"] + 1)
+        if len(bad) >= 40:
+            break
+    if len(bad) < 10:
+        raise Infra("self-test: not enough accepted rows to corrupt")
+    d = ctx.sub("selftest")
+    path = os.path.join(d, "regex_trace.ndjson")
+    write_ndjson(path, bad)
+    res = run_tlc(_Sub(ctx, "selftest"), "RegexTrace", TRACE_CFG["ab/5"], files=[path], workers=2, timeout=600, heap="2g")
+    if res.error or not res.finished or res.distinct != len(bad) + 1:
+        raise Infra("self-test run failed:\n" + _tail(res.out))
+    seen = {}
+    for p in res.prints:
+        if p.get("kind") == "fail":
+            seen.setdefault(p["id"], set()).add(p["what"].split(":")[0])
+        elif p.get("kind") == "conf":
+            seen.setdefault(p["id"], set()).add("conf")
+    missed = [(bad[i - 1]["re"], w) for i, w in expect.items() if w not in seen.get(i, set())]
+    # a suffix corruption can be vacuous when every matched word happens to end with the new suffix; nothing else may be missed
+    missed = [m for m in missed if m[1] != "SuffixNotSuffix"] + [m for m in missed if m[1] == "SuffixNotSuffix"][3:]
+    if missed:
+        raise Infra("self-test: the trace checker accepted corrupted answers: %s" % missed[:5])
+    return len(expect)
+
+
 def _inf(v):
     return "inf" if v == -1 else str(v)
+
+
+def _skel(a):
+    op, sub = a["op"], [_skel(x) for x in a["s"]]
+    q = "?" if a["z"] == 1 else ""
+    if not sub:
+        return {"empty": "", "bol": "^", "eol": "^", "wb": "^"}.get(op, "x")
+    if op == "cap":
+        return "(" + sub[0] + ")"
+    if op == "cat":
+        return sub[0] + sub[1]
+    if op == "alt":
+        return "(?:" + sub[0] + "|" + sub[1] + ")"
+    if op == "rep":
+        return "(?:%s){%d,%s}%s" % (sub[0], a["n"], "" if a["m"] == -1 else a["m"], q)
+    return "(?:" + sub[0] + ")" + {"star": "*", "plus": "+", "quest": "?"}[op] + q
 
 
 def _has_branch(a):
